@@ -1,3 +1,117 @@
 import TTModel.Proto
-/-! C20 driver — stub (not built yet): answers `bad-op` to everything. -/
-def main : IO Unit := TT.Proto.mainLoop fun _ => "bad-op"
+import TTModel.C08_Coalescent
+import TTModel.C20_GMRF
+/-!
+C20 driver.  `<op> <F|Q> <mode> <numbers> | <numbers> | …`; `F` = IEEE bit patterns / `Float`,
+`Q` = `p/q` / `Rat`.  `mode`: `P` plain, `W` weighted (extra group: weights), `T0` / `T1` time-aware without /
+with rescale (extra group: internal node heights).
+
+  quad  X mode tau | field | extra      -> `<Σ scaled squared differences · tau> <xᵀ Q x>`   (exact at Q)
+  pmat  X mode tau | field | extra      -> rows of the published precision matrix, `;`-separated
+  gmrf  F mode log2pi tau | field | extra                      -> GMRF log density
+  gint  F mode log2pi shape rate lgA lgAd | field | extra      -> GMRFGammaIntegrated
+  cstat X P | heights                                          -> Σ lchoose2·durations
+  cint  F P alpha beta lgA lgAm | heights                      -> ConstantCoalescentIntegrated
+  ssgrid X P | heights | grid           -> `ss … cnt …`        (sufficient statistics, counts)
+  ssride X P | heights                  -> `ss … cnt …`
+  repgrid F P thetas | heights | grid   -> `<Σ ss/θ + c log θ> <-log_prob>`
+  repride F P thetas | heights          -> `<Σ ss/θ + c log θ> <-log_prob>`
+-/
+open TT TT.Proto TT.C08 TT.C20
+
+def splitGroups (ws : List String) : List (List String) :=
+  let rec go (ws : List String) (cur : List String) (acc : List (List String)) : List (List String) :=
+    match ws with
+    | [] => (cur.reverse :: acc).reverse
+    | w :: rest => if w = "|" then go rest [] (cur.reverse :: acc) else go rest (w :: cur) acc
+  go ws [] []
+
+section generic
+variable {α : Type} [Add α] [Sub α] [Mul α] [Div α] [Neg α] [Zero α] [IntCast α] [OfNat α 2]
+  [LE α] [DecidableLE α]
+
+/-- the weights selected by the mode, `none` = plain; `bad` when the groups do not fit -/
+def weightsOf (mode : String) (field : List α) (extra : Option (List α)) : Option (Option (List α)) :=
+  match mode, extra with
+  | "P", none => some none
+  | "W", some w => if w.length + 1 = field.length then some (some w) else none
+  | "T0", some h => if h.length = field.length then some (some (timeAwareWeights false h)) else none
+  | "T1", some h => if h.length = field.length then some (some (timeAwareWeights true h)) else none
+  | _, _ => none
+
+def quadReply (shw : α → String) (mode : String) (τ : α) (field : List α) (extra : Option (List α)) :
+    Option String :=
+  (weightsOf mode field extra).map fun w =>
+    let s := (scaledDiffSq w field).sum * τ
+    let q := quadForm (precisionMatrix (offDiag τ w field.length)) field
+    s!"{shw s} {shw q}"
+
+def pmatReply (shw : α → String) (mode : String) (τ : α) (field : List α) (extra : Option (List α)) :
+    Option String :=
+  (weightsOf mode field extra).map fun w =>
+    ";".intercalate ((precisionMatrix (offDiag τ w field.length)).map fun row =>
+      " ".intercalate (row.map shw))
+
+def ssReply (shw : α → String) (p : List α × List Nat) : String :=
+  s!"ss {" ".intercalate (p.1.map shw)} cnt {" ".intercalate (p.2.map toString)}"
+
+end generic
+
+def oddLen {α} (h : List α) : Bool := h.length % 2 == 1
+
+def extraOf {α} : List (List α) → Option (Option (List α))
+  | [] => some none
+  | [e] => some (some e)
+  | _ => none
+
+def handleF (op mode : String) (g : List (List Float)) : Option String :=
+  match op, g with
+  | "quad", [τ] :: field :: rest => (extraOf rest).bind fun e => quadReply floatBits mode τ field e
+  | "pmat", [τ] :: field :: rest => (extraOf rest).bind fun e => pmatReply floatBits mode τ field e
+  | "gmrf", [l2p, τ] :: field :: rest =>
+      (extraOf rest).bind fun e => (weightsOf mode field e).map fun w =>
+        floatBits (gmrfLogProb l2p τ (scaledDiffSq w field) field.length)
+  | "gint", [l2p, sh, rt, lgA, lgAd] :: field :: rest =>
+      (extraOf rest).bind fun e => (weightsOf mode field e).map fun w =>
+        floatBits (gammaIntegratedLogProb l2p sh rt lgA lgAd (scaledDiffSq w field) field.length)
+  | "cstat", [[], h] => if oddLen h then some (floatBits (constantStat h)) else none
+  | "cint", [[a, b, lgA, lgAm], h] =>
+      if oddLen h then
+        some (floatBits (constantIntegratedLogProb a b lgA lgAm (constantStat h) (taxaCount h - 1)))
+      else none
+  | "ssgrid", [[], h, grid] => if oddLen h then some (ssReply floatBits (skygridSuffStats grid h)) else none
+  | "ssride", [[], h] => if oddLen h then some (ssReply floatBits (skyrideSuffStats h)) else none
+  | "repgrid", [θ, h, grid] =>
+      if oddLen h then
+        let p := skygridSuffStats grid h
+        some s!"{floatBits (reproduce θ p.1 p.2)} {floatBits (-(skygridLogProb θ grid h))}"
+      else none
+  | "repride", [θ, h] =>
+      if oddLen h then
+        let p := skyrideSuffStats h
+        some s!"{floatBits (reproduce θ p.1 p.2)} {floatBits (-(skyrideLogProb θ h))}"
+      else none
+  | _, _ => none
+
+def handleQ (op mode : String) (g : List (List Rat)) : Option String :=
+  match op, g with
+  | "quad", [τ] :: field :: rest => (extraOf rest).bind fun e => quadReply showRat mode τ field e
+  | "pmat", [τ] :: field :: rest => (extraOf rest).bind fun e => pmatReply showRat mode τ field e
+  | "cstat", [[], h] => if oddLen h then some (showRat (constantStat h)) else none
+  | "ssgrid", [[], h, grid] => if oddLen h then some (ssReply showRat (skygridSuffStats grid h)) else none
+  | "ssride", [[], h] => if oddLen h then some (ssReply showRat (skyrideSuffStats h)) else none
+  | _, _ => none
+
+def handle (line : String) : String :=
+  match splitWords line with
+  | op :: "F" :: mode :: rest =>
+    match (splitGroups rest).mapM (fun g => g.mapM parseFloatBits) with
+    | some g => (handleF op mode g).getD "bad-op"
+    | none => "bad-op"
+  | op :: "Q" :: mode :: rest =>
+    match (splitGroups rest).mapM (fun g => g.mapM parseRat) with
+    | some g => (handleQ op mode g).getD "bad-op"
+    | none => "bad-op"
+  | _ => "bad-op"
+
+def main : IO Unit := mainLoop handle
